@@ -25,7 +25,7 @@ RULE = ('Hypothesis draws CLI arguments of `panqec generate-input`: size '
 ASSUMPTIONS = [
     'range specifications lie on a decimal grid (min = i*10^-a, step = '
     'j*10^-b, max = min + m*step) as users type them',
-    'progression values are compared with tolerance 1e-9',
+    'progression values are compared to nine significant digits',
 ]
 MANIFEST_ENTRY = {
     'technique': 'Hypothesis-generated command lines executed through click\'s '
@@ -64,6 +64,12 @@ def expected_rates(prob):
     if ',' in prob:
         return [float(s) for s in prob.split(',')], None
     return [float(prob)], None
+
+
+def rkey(r):
+    """Error rates are compared to nine significant digits (absolute
+    rounding would identify 2e-7 with 0)."""
+    return 0.0 if r == 0 else float(f'{r:.8e}')
 
 
 def expected_direction(bias, eta):
@@ -108,7 +114,8 @@ def eval_case(case):
     rates, hi = expected_rates(a['prob'])
     # unit level: readers
     got_rates = read_range_input(a['prob'])
-    if len(got_rates) != len(rates) or any(abs(g - w) > 1e-9 for g, w in zip(got_rates, rates)):
+    scale = max([abs(x) for x in rates] + [1e-300])
+    if len(got_rates) != len(rates) or any(abs(g - w) > 1e-9 * scale for g, w in zip(got_rates, rates)):
         fail('range_is_arithmetic_progression',
              f"--prob {a['prob']}: {len(got_rates)} values ending {got_rates[-3:]}, expected "
              f"{len(rates)} values ending {rates[-3:]}")
@@ -133,7 +140,7 @@ def eval_case(case):
         for eta in a['etas']:
             d = expected_direction(a['bias'], eta)
             for r in rates:
-                want[(size, tuple(round(x, 12) for x in d), a.get('deformation'), round(r, 9))] += 1
+                want[(size, tuple(round(x, 12) for x in d), a.get('deformation'), rkey(r))] += 1
     got = collections.Counter()
     files = sorted(os.listdir(os.path.join(work, 'inputs')))
     for fn in files:
@@ -158,7 +165,7 @@ def eval_case(case):
             for rate in sim_rates:
                 got[(tuple(sim.code.size), tuple(round(float(x), 12) for x in d),
                      sim.error_model.params.get('deformation_name'),
-                     round(float(rate), 9))] += 1
+                     rkey(float(rate)))] += 1
     if got != want:
         missing = want - got
         extra = got - want
@@ -185,15 +192,23 @@ def eval_case(case):
 
 @st.composite
 def prob_specs(draw):
-    kind = draw(st.sampled_from(['single', 'list', 'range', 'range', 'range2']))
+    kind = draw(st.sampled_from(['single', 'list', 'range', 'range', 'range2', 'range-small']))
+    # incl. the low-rate regime (what the splitting method is for): values
+    # with significant digits far beyond the sixth decimal
+    small = ['2e-7', '5e-6', '1.5e-6', '0.0000005', '3e-9', '0.00012345678', '1e-3']
     if kind == 'single':
-        return draw(st.sampled_from(['0.1', '0.05', '1e-2', '0.3']))
+        return draw(st.sampled_from(['0.1', '0.05', '1e-2', '0.3'] + small))
     if kind == 'list':
-        vals = draw(st.lists(st.sampled_from(['0.01', '0.05', '0.1', '0.15', '0.2', '0.25', '0.3']),
+        vals = draw(st.lists(st.sampled_from(['0.01', '0.05', '0.1', '0.15', '0.2', '0.25', '0.3']
+                                             + small),
                              min_size=2, max_size=5, unique=True))
         return ','.join(vals)
     a = draw(st.integers(1, 3))
     b = draw(st.integers(1, 3))
+    if kind == 'range-small':
+        a = draw(st.integers(4, 9))
+        b = draw(st.integers(a, 10))
+        kind = 'range2'
     i = draw(st.integers(0, 40))
     j = draw(st.sampled_from([1, 2, 3, 4, 5, 7, 25]))
     m = draw(st.integers(1, 150 if kind == 'range' else 12))
@@ -205,7 +220,7 @@ def prob_specs(draw):
         hi = lo + m * step
 
     def dec(f):
-        s = f'{float(f):.6f}'.rstrip('0')
+        s = f'{float(f):.12f}'.rstrip('0')
         return s + '0' if s.endswith('.') else s
     if kind == 'range2' and step == Fraction(5, 1000):
         return f'{dec(lo)}:{dec(hi)}'
